@@ -554,16 +554,23 @@ def run(ctx, wide=False):
     grid = [0, 4, 8, 12] if not deep else [0, 4, 6, 8, 12]
     maxlen = 6 if deep else 5
     seqs = monotone_seqs(maxlen, grid)
-    starts = ['N', '0', '4', '6', 'inf', 'T4', 'TX'] if not deep else ['N', '0', '4', '5', '6', '12', 'inf', 'T4', 'T0', 'TX', 'Tinf']
-    ends = ['N', '0', '6', '8', 'inf', 'T8', 'TX'] if not deep else ['N', '0', '4', '6', '8', '13', 'inf', 'T8', 'TX', 'Tinf']
-    t0s = ['N', '0', '2', '8'] if not deep else ['N', '0', '2', '8', '16', 'TX']
+    starts = ['N', '0', '4', '6', 'inf', 'T4', 'TX']
+    ends = ['N', '0', '6', '8', 'inf', 'T8', 'TX']
+    t0s = ['N', '0', '2', '8']
     ctors = ctor_grid(ctx, starts, ends, t0s)
+    main = set(ctors)
+    if deep:   # a wider grid of bounds, run on the sequences up to length 4
+        ctors += [c for c in ctor_grid(ctx, ['N', '0', '4', '5', '6', '12', 'inf', 'T4', 'T0', 'TX', 'Tinf'],
+                                       ['N', '0', '4', '6', '8', '13', 'inf', 'T8', 'TX', 'Tinf'],
+                                       ['N', '0', '2', '8', '16', 'TX']) if c not in main]
     ctx.count('ctor_configs', len(ctors))
     ctx.count('monotone_sequences', len(seqs))
     short = [s for s in seqs if len(s) <= 3]
     # (1) every constructor configuration x every monotone sequence
     for ctor in ctors:
         for seq in seqs:
+            if ctor not in main and len(seq) > 4:
+                continue
             seq_case(ctx, batch, ctor, concretise(rng, seq))
         # (2) restart() between two independently monotone segments: exhaustive for total length <= 3 ...
         for a in short:
